@@ -48,12 +48,16 @@
 #define SCPI_ERROR_SETVAL(e, c, i) do { (e)->error_code = (c); (void)(i);} while(0)
 #endif
 
+static void SCPI_ErrorEmitEmpty(scpi_t * context);
+
 /**
  * Initialize error queue
  * @param context - scpi context
  */
 void SCPI_ErrorInit(scpi_t * context, scpi_error_t * data, int16_t size) {
     fifo_init(&context->error_queue, data, size);
+    /* queue is empty now, error available bit must follow */
+    SCPI_ErrorEmitEmpty(context);
 }
 
 /**
